@@ -21,9 +21,13 @@
 #include <typeinfo>
 #include <vector>
 
+#include <sstream>
+#include <iostream>
 #include <tao/pegtl.hpp>
 #include <tao/pegtl/contrib/check_bytes.hpp>
+#include <tao/pegtl/contrib/control_action.hpp>
 #include <tao/pegtl/contrib/coverage.hpp>
+#include <tao/pegtl/contrib/trace.hpp>
 #include <tao/pegtl/contrib/input_with_depth.hpp>
 #include <tao/pegtl/contrib/limit_bytes.hpp>
 #include <tao/pegtl/contrib/limit_depth.hpp>
@@ -1039,6 +1043,34 @@ namespace vt
    VT_DEFINE_FAM( 6 )
    VT_DEFINE_FAM( 7 )
 
+   // family 8: contrib/control_action.hpp (C08): every rule's action class derives from control_action and logs the
+   // action-side hooks it is given (start, success, failure, unwind); no apply / apply0
+   template< typename Rule >
+   struct fam8 : pegtl::control_action
+   {
+      static constexpr int vfam = 8;
+      template< typename In, typename... St >
+      static void start( const In& in, St&&... /*unused*/ )
+      {
+         hook_event( "cst", rid< Rule >(), 0, in );
+      }
+      template< typename In, typename... St >
+      static void success( const In& in, St&&... /*unused*/ )
+      {
+         hook_event( "csu", rid< Rule >(), 0, in );
+      }
+      template< typename In, typename... St >
+      static void failure( const In& in, St&&... /*unused*/ )
+      {
+         hook_event( "cfa", rid< Rule >(), 0, in );
+      }
+      template< typename In, typename... St >
+      static void unwind( const In& in, St&&... /*unused*/ )
+      {
+         hook_event( "cuw", rid< Rule >(), 0, in );
+      }
+   };
+
    // instrumented state class (C13): logs construction (with the outer state it was given), success and destruction
    struct S1
    {
@@ -1230,7 +1262,8 @@ namespace vt
       int eol = 3;  // 0 lf 1 cr 2 crlf 3 lf_crlf 4 cr_crlf
       long long ib = 0, il = 1, ic = 1;
       int cls = 0;  // input class: 0 memory_input, 1 input_with_depth, 2 buffer_input with a scripted reader,
-                    // 3 string_input, 4 read_input (stdio), 5 mmap_input, 6 argv_input, 7 istream_input, 8 cstream_input
+                    // 3 string_input, 4 read_input (stdio), 5 mmap_input / file_input, 6 argv_input, 7 istream_input, 8 cstream_input,
+                    // 9 buffer_input< cstring_reader >
       int extra = 0;
       long long bmax = 0;    // buffer_input: the maximum passed to the constructor
       long long bchunk = 0;  // buffer_input: Chunk
@@ -1537,6 +1570,42 @@ namespace vt
          catch( ... ) {
             const XInfo x = classify_current();
             log_cov( result, x.cls );
+            end_case_exc( x, in );
+         }
+      }
+      std::free( blk );
+   }
+
+   // tracer (C08, C19): pegtl's tracer state on top of state_control< tracing control >; what it prints is discarded, the
+   // hook protocol of the base control underneath it is what the contract checks (and that printing positions and source
+   // lines with line_at() neither throws nor disturbs the run)
+   template< typename Rule, template< typename... > class Action, template< typename... > class Control, bool Hide, pegtl::tracking_mode T, typename Eol >
+   void run_trace_case( CaseCfg c, const std::string& data )
+   {
+      describe< Rule >();
+      c.root = rid< Rule >();
+      c.A = 1;
+      c.M = 0;
+      c.af = afam_of< Action >;
+      c.cf = Control< Rule >::vcfam;
+      c.trk = ( T == pegtl::tracking_mode::eager ) ? 0 : 1;
+      c.extra = 5;   // tracer run
+      char* blk = static_cast< char* >( std::malloc( data.size() ? data.size() : 1 ) );
+      std::memcpy( blk, data.data(), data.size() );
+      begin_case( c, blk, data.size() );
+      {
+         pegtl::memory_input< T, Eol, std::string > in( blk, blk + data.size(), "src" );
+         std::ostringstream sink;
+         std::streambuf* old = std::cerr.rdbuf( sink.rdbuf() );
+         try {
+            pegtl::tracer< pegtl::tracer_traits< Hide, false, true > > tr( in );
+            const bool res = tr.template parse< Rule, Action, Control >( in );
+            std::cerr.rdbuf( old );
+            end_case_ok( res, in );
+         }
+         catch( ... ) {
+            std::cerr.rdbuf( old );
+            const XInfo x = classify_current();
             end_case_exc( x, in );
          }
       }
